@@ -147,10 +147,11 @@ class TapeWriter:
                 yield {"raw": [0x55, 0x3C, 0xFF] * (L // 3), "B0": [1, 2, 3]}
             elif fn in ("add_file", "append_header"):
                 n = cell.get("n", 3)
-                h = {"type": 2, "dtype": 0, "load": 0x0E00, "exec": 0x0E10, "data": data, "B0": []}
-                for k in range(n):
-                    h["nm%d" % k] = 65 + k
-                yield h
+                for b0 in ([], [0x00, 0x55, 0x3C, 0xFF, 0x00, 0xFF, 0x55]):        # on an empty buffer and behind an earlier file's EOF block
+                    h = {"type": 2, "dtype": 0, "load": 0x0E00, "exec": 0x0E10, "data": data, "B0": list(b0)}
+                    for k in range(n):
+                        h["nm%d" % k] = 65 + k
+                    yield h
 
     # ---- helpers
     def _fresh_cassette(self, env, F, native):
